@@ -358,10 +358,10 @@ func FormatDataType(dt *ast.DataType) string {
 			if lit, ok := unary.Operand.(*ast.Literal); ok {
 				params = append(params, fmt.Sprintf("%s%v", unary.Op, lit.Value))
 			} else {
-				params = append(params, fmt.Sprintf("%v", p))
+				params = append(params, formatExprForType(p))
 			}
 		} else {
-			params = append(params, fmt.Sprintf("%v", p))
+			params = append(params, formatExprForType(p))
 		}
 	}
 	return fmt.Sprintf("%s(%s)", dt.Name, strings.Join(params, ", "))
@@ -383,7 +383,7 @@ func formatBinaryExprForType(expr *ast.BinaryExpr) string {
 	} else if ident, ok := expr.Left.(*ast.Identifier); ok {
 		left = ident.Name()
 	} else {
-		left = fmt.Sprintf("%v", expr.Left)
+		left = formatExprForType(expr.Left)
 	}
 
 	// Format right side
@@ -395,7 +395,7 @@ func formatBinaryExprForType(expr *ast.BinaryExpr) string {
 		// Handle unary expressions like -100
 		right = formatUnaryExprForType(unary)
 	} else {
-		right = fmt.Sprintf("%v", expr.Right)
+		right = formatExprForType(expr.Right)
 	}
 
 	return left + " " + expr.Op + " " + right
@@ -406,7 +406,7 @@ func formatUnaryExprForType(expr *ast.UnaryExpr) string {
 	if lit, ok := expr.Operand.(*ast.Literal); ok {
 		return expr.Op + fmt.Sprintf("%v", lit.Value)
 	}
-	return expr.Op + fmt.Sprintf("%v", expr.Operand)
+	return expr.Op + formatExprForType(expr.Operand)
 }
 
 // formatFunctionCallForType formats a function call for use in type parameters
@@ -441,8 +441,15 @@ func formatExprForType(expr ast.Expression) string {
 	case *ast.DataType:
 		return FormatDataType(e)
 	default:
-		return fmt.Sprintf("%v", expr)
+		return formatExprAsString(expr)
 	}
+}
+
+// unknownExprString names an expression kind the textual formatters have no rendering for.
+// It must not print the node with %v: that output contains pointer addresses, which differ
+// from one parse to the next.
+func unknownExprString(expr ast.Expression) string {
+	return strings.TrimPrefix(fmt.Sprintf("%T", expr), "*ast.")
 }
 
 // NormalizeFunctionName normalizes function names to match ClickHouse's EXPLAIN AST output
@@ -620,7 +627,7 @@ func formatExprAsString(expr ast.Expression) string {
 		}
 		return exprStr + " " + keyword + " " + listStr
 	default:
-		return fmt.Sprintf("%v", expr)
+		return unknownExprString(expr)
 	}
 }
 
